@@ -22,12 +22,26 @@ class RealResult:
     pass
 
 
+_PORT_COUNTER = [0]
+
+
 def _free_port():
-    s = socket.socket(socket.AF_INET, socket.SOCK_STREAM)
-    s.bind(('127.0.0.1', 0))
-    p = s.getsockname()[1]
-    s.close()
-    return p
+    """A port from a window of a hundred that belongs to this process alone (10000 + (pid mod 220) * 100 ...), below the
+    kernel's ephemeral range: "bind to port 0, close, let the table manager bind it a moment later" races with the other
+    shard processes doing the same, and two table managers (or the clients of two sessions) then meet on one port."""
+    base = 10000 + (os.getpid() % 220) * 100
+    for _ in range(100):
+        port = base + _PORT_COUNTER[0] % 100
+        _PORT_COUNTER[0] += 1
+        s = socket.socket(socket.AF_INET, socket.SOCK_STREAM)
+        try:
+            s.bind(('127.0.0.1', port))
+            return port
+        except OSError:
+            continue
+        finally:
+            s.close()
+    raise Inconclusive('no free loopback port in this process\'s window')
 
 
 def run_real_session(scenario, timeout_s=60.0):
